@@ -84,6 +84,35 @@ def gen_cases(ctx):
                         yield {"msgs": [[0o3, 10, na, 70],
                                         [0o3 if same_origin else 0o4, 10 if same_id else 11, nb, 71]],
                                "order": order, "deq": deq, "path": "direct"}
+    # tail replay: a complete stream, then its suffix from fragment j again (late repeats),
+    # with and without the application reading in between; message types that coincide with
+    # fragment-counter values (1..8) as well as ordinary ones
+    for nfrag in (2, 3, 4, 5, 6, 7):
+        for typ in (1, 2, 3, 4, 5, 6, 7, 8, 66, 127):
+            for j in range(nfrag):
+                for deq in ([], [nfrag], [nfrag, 2 * nfrag - j]):
+                    for twice in (False, True):
+                        if twice and (ctx.tier == "quick" and (nfrag + typ + j) % 3):
+                            continue
+                        order = [[0, i] for i in range(nfrag)] + [[0, i] for i in range(j, nfrag)] * (2 if twice else 1)
+                        yield {"msgs": [[0o3, 10, nfrag, typ]], "order": order, "deq": deq,
+                               "path": "radio" if (nfrag + typ + j) % 4 == 0 else "direct"}
+    # queue pressure: k unread single-frame messages fill the queue (capacity 6) so that the
+    # finished message is refused or only just fits; the application then reads and late repeats
+    # of the tail (or the whole stream) arrive
+    for nfrag in (2, 3, 4):
+        for k in (4, 5, 6, 7):
+            for tail_from in range(nfrag + 1):
+                for pre_deq in (False, True):
+                    singles = [[0o5, 40 + i, 1, 80 + i] for i in range(k)]
+                    msgs = [[0o3, 10, nfrag, 70]] + singles
+                    order = [[1 + i, 0] for i in range(k)] + [[0, i] for i in range(nfrag)]
+                    deq = [len(order)]
+                    if pre_deq:
+                        deq = [k + nfrag - 1] + deq  # room appears just before the LAST fragment
+                    order += [[0, i] for i in range(tail_from, nfrag)]
+                    yield {"msgs": msgs, "order": order, "deq": deq,
+                           "path": "radio" if (nfrag + k + tail_from) % 3 == 0 else "direct"}
     # stray fragments / restarts / random
     nrand = 8000 if ctx.tier == "quick" else 400000
     for i in range(nrand):
@@ -92,7 +121,8 @@ def gen_cases(ctx):
         for s in range(ns):
             msgs.append([[0o3, 0o4, 0o5, 0o13][(s + rng.randrange(2) * 2) % 4 if s else rng.randrange(4)],
                          rng.choice([10, 10, 11, 12]),
-                         rng.randrange(2, 8 if ctx.tier == "thorough" else 6), rng.randrange(1, 128)])
+                         rng.randrange(2, 8 if ctx.tier == "thorough" else 6),
+                         rng.randrange(1, 9) if rng.random() < 0.25 else rng.randrange(1, 128)])
         # one sender never re-uses a frame id for another message
         seen_pairs = set()
         for mm in msgs:
